@@ -38,7 +38,7 @@ def plan(tier, seed):
 
 
 def unit_timeout(tier):
-    return 90 if tier == "quick" else 480
+    return 45 if tier == "quick" else 480
 
 
 def floors(tier):
@@ -55,7 +55,10 @@ def setup_worker(ctx):
     monitors.install_python_hooks()
 
 
-def gen_defn(rng, kind):
+def gen_defn(rng, kind, i=0):
+    if kind == "direct" and i % 4 == 3:
+        return gen.linear_in_state_program(rng, n_state=(2, 4), n_control=(0, 2), n_calib=(0, 2), n_sensor=(1, 3),
+                                           n_reading=(1, 3), depth=1, n_shared=(0, 0))
     if kind == "direct":
         return gen.program(rng, n_state=(1, 5), n_control=(0, 2), n_calib=(0, 2), n_sensor=(1, 3),
                            n_reading=(1, 4), depth=2 if rng.random() < 0.6 else 3)
@@ -67,7 +70,7 @@ def run_unit(unit, ctx):
     R = K.Result()
     rng = K.unit_rng(ID, ctx["seed"], unit)
     kind = unit["kind"]
-    defn = gen_defn(rng, kind)
+    defn = gen_defn(rng, kind, unit["i"])
     fp = gen.fingerprint([defn, kind])
     R.fps_all.append(fp)
     if any(len(rd) >= 2 for rd in defn["sensors"].values()):
